@@ -281,6 +281,7 @@ impl<const LC: bool> EventSource for Comp<LC> {
         r
     }
     fn unregister(&mut self, poll: &mut Poll) -> calloop::Result<()> {
+        self.own = None;
         let mut r = Ok(());
         for s in self.subs.iter_mut() {
             r = s.unregister(poll);
